@@ -51,7 +51,10 @@ func HarnessC20Handler() {
 const c20Max = 4
 
 var c20Types = [8]evdev.EvType{evdev.EV_SYN, evdev.EV_KEY, evdev.EV_REL, evdev.EV_ABS, evdev.EV_MSC, evdev.EV_LED, evdev.EV_REP, evdev.EV_FF}
-var c20Phys = [3]string{"usb-1.1", "usb-1.2", "usb-2"}
+// physical locations and unique ids: "usb-1.1"+"2" spells the same as "usb-1.12"+"", so a grouping key built by
+// gluing the two together would merge different locations
+var c20Phys = [3]string{"usb-1.1", "usb-1.12", "usb-2"}
+var c20Uniq = [3]string{"", "2", "aa:bb"}
 var c20Tags = [c20Max]string{"h0", "h1", "h2", "h3"}
 
 // capProfile: capability lists as real handlers report them (plus reordered / duplicated / odd variants).
@@ -118,7 +121,11 @@ func HarnessC20() {
 		verifrt.Assume(phys[i] < 3)
 		prof := verifrt.U8(verifrt.N("profile", i)) % 12
 		caps := capProfile(prof)
-		infos[i] = DeviceInfo{Name: "", Phys: c20Phys[phys[i]], Sysfs: c20Tags[i], CapableTypes: caps, Properties: []evdev.EvProp{evdev.EvProp(profileType[prof])}}
+		// the unique id of a handler is arbitrary (handlers of one device may or may not report one): grouping is
+		// by physical location only
+		uq := verifrt.U8(verifrt.N("uniq", i))
+		verifrt.Assume(uq < 3)
+		infos[i] = DeviceInfo{Name: "", Phys: c20Phys[phys[i]], Uniq: c20Uniq[uq], Sysfs: c20Tags[i], CapableTypes: caps, Properties: []evdev.EvProp{evdev.EvProp(profileType[prof])}}
 		ht[i] = infos[i].HandlerType()
 	}
 	// discovery order: an arbitrary permutation of the n handlers
